@@ -24,7 +24,7 @@ EXPLANATION = (
     'buffer_pages with page count ctr, reset to 0 only after a successful flush, final flush iff ctr > 0. Byte-exact coverage for all '
     'geometries is arithmetic over runtime values and is decided only through these forms.')
 ASSUMPTIONS = ['the bootloader target writes page_count pages starting at target_page from buffer pages 0..page_count-1']
-FLOORS = {'R1': 4, 'R2': 6, 'R3': 6, 'R4': 3, 'R5': 7, 'R6': 7}
+FLOORS = {'R1': 5, 'R2': 7, 'R3': 6, 'R4': 3, 'R5': 7, 'R6': 7}
 
 
 def check(ctx):
@@ -40,7 +40,8 @@ def check(ctx):
     sp = sorted([n for n in g.nodes if n.kind == 'stmt' and isinstance(n.ast, ast.Assign) and norm(n.ast.targets[0]) == 'start_page'], key=lambda n: n.line)
     ok = len(sp) == 2 and norm(sp[0].ast.value).endswith('.start_page') and norm(sp[1].ast.value) == 'page_override' and fact_key('page_override is not None', True) in g.fact_keys_at(sp[1])
     ctx.inst('R1', f, 'override-aware-start-page', ok, 'start_page = target start page, replaced by page_override when given')
-    refusal = [n for n in g.nodes if n.kind == 'if' and isinstance(n.ast.test, ast.Compare) and len(n.ast.test.ops) == 1 and 'flash_pages' in norm(n.ast.test)]
+    refusal = [n for n in g.nodes if n.kind == 'if' and isinstance(n.ast.test, ast.Compare) and len(n.ast.test.ops) == 1 and
+               ('flash_pages' in norm(n.ast.test) or (norm(n.ast.test.left) == 'len(image)' and norm(n.ast.test.comparators[0]).startswith('t_data.')))]
     ctx.need(len(refusal) == 1, '_internal_flash: size test not found')
     # the test, with locals read through, as  lhs - rhs  OP 0 ; two exact spellings of "the image does not fit":
     #   bytes:  len(image) > (flash_pages - start_page) * page_size
@@ -57,7 +58,20 @@ def check(ctx):
             ds = g.reaching_defs(at if at is not None else refusal[0], nm)
             if len(ds) == 1 and isinstance(ds[0].ast, ast.Assign) and len(ds[0].ast.targets) == 1 and isinstance(ds[0].ast.targets[0], ast.Name):
                 env[nm] = ds[0].ast.value
-        return _subst(e, env) if env else e
+        e = _subst(e, env) if env else e
+        # one-line properties of the target description (boottypes.Target) are read through: t_data.<prop> -> its expression on t_data
+        import copy as _copy
+        TG = m.cls('cflib/bootloader/boottypes.py', 'Target')
+
+        class PR(ast.NodeTransformer):
+            def visit_Attribute(self, n):
+                self.generic_visit(n)
+                if isinstance(n.value, ast.Name) and n.value.id == 't_data' and TG.has(n.attr) and any(norm(d) == 'property' for d in TG.method(n.attr).node.decorator_list):
+                    body = [b for b in TG.method(n.attr).node.body if not (isinstance(b, ast.Expr) and isinstance(b.value, ast.Constant))]
+                    if len(body) == 1 and isinstance(body[0], ast.Return) and body[0].value is not None:
+                        return _subst(_copy.deepcopy(body[0].value), {'self': ast.Name(id='t_data', ctx=ast.Load())})
+                return n
+        return PR().visit(_copy.deepcopy(e))
     diff = canon(ast.BinOp(left=through(tst.left), op=ast.Sub(), right=through(tst.comparators[0])), sc)
     opn = type(tst.ops[0]).__name__
     want_b = canon(ast.parse('len(image) - (t_data.flash_pages - start_page) * t_data.page_size', mode='eval').body, sc)
@@ -82,6 +96,27 @@ def check(ctx):
         else:
             okp = False
         ctx.inst('R2', f, 'write-result-checked@%d' % n.line, ok and okp, 'a failed flash write must abort (raise) on every path; the result may not be dropped', line=n.line)
+    ff = m.func(BL, 'Bootloader._flash_flash')
+    swallow = []
+    for t_ in [t_ for t_ in walk_own(ff.node) if isinstance(t_, ast.Try)]:
+        if any(method_call(c_, '_internal_flash') for s_ in t_.body for c_ in walk_own(s_)):
+            for h_ in t_.handlers:
+                gh_leave = [x for x in walk_own(h_) if isinstance(x, ast.Raise)]
+                # the handler must re-raise on every path: its last statement is a raise and no branch of it ends otherwise
+                if not (h_.body and isinstance(h_.body[-1], ast.Raise)):
+                    swallow.append(h_.lineno)
+                del gh_leave
+    ctx.inst('R2', ff, 'flash-failure-propagates', not swallow and any(method_call(c_, '_internal_flash') for c_ in walk_own(ff.node)),
+             'an exception of _internal_flash (failed flash write) must leave _flash_flash, the remaining artifacts are not written; handlers that can swallow it at lines %s' % (swallow or 'none'))
+    fl = m.func(BL, 'Bootloader.flash')
+    gfl = cfg_of(fl)
+    rb = gfl.find(lambda q: method_call(q, 'reset_to_bootloader'))
+    mk = [n for n in gfl.nodes if n.kind == 'stmt' and isinstance(n.ast, ast.Assign) and norm(n.ast.targets[0]) == 'self._cload' and isinstance(n.ast.value, ast.Call) and dotted(n.ast.value.func) == 'Cloader']
+    nxt = gfl.find(lambda q: method_call(q, '_flash_flash'))
+    ok = len(rb) == 1 and bool(mk) and bool(nxt) and all(gfl.path_avoiding(rb[0][0], [n for n, _ in nxt], avoid=mk) is None for _ in [0])
+    ctx.inst('R1', fl, 'fresh-loader-after-bootloader-update', ok,
+             'after the nRF51 bootloader / soft device was replaced and the device rebooted, flash() builds a new Cloader before flashing on: the old one keeps the cached '
+             'target description (start page of the OLD soft device)')
     wf = m.func(CL, 'Cloader.write_flash')
     gw = cfg_of(wf)
     rets = [n for n in gw.nodes if n.kind == 'return']
